@@ -9,7 +9,7 @@ us = [u for u in units.units(tier) if fnmatch.fnmatch(u['id'], pat)]
 vf.prune_cache(1)
 rs = vf.run_units(us, os.path.join(vf.cache_dir(), 'work'))
 for r in rs:
-    n = len(r['obligations']); bad = [o for o in r['obligations'] if o['status'] != 'SUCCESS']
+    n = len(r['obligations']); bad = [o for o in r['obligations'] if o['status'] == 'FAILURE']
     print('%-40s %-9s %4d obligations %3d failed  %.1fs %s' % (r['id'], r['status'], n, len(bad), r.get('wall_s', 0), r['reason'][:300]))
     for o in bad:
         print('      FAIL [%s] %s :: %s' % (o['class'], o['function'][:70], o['desc'][:200]))
